@@ -484,6 +484,17 @@ def compose(template_text, repo_root, read_file):
     lines = template_text.split("\n")
     i = 0
     from common import sha
+    # //@INCLUDE <path relative to /verif/contracts>
+    import os as _os
+    inc = []
+    for l in lines:
+        if l.strip().startswith("//@INCLUDE"):
+            pth = _os.path.join(_os.path.dirname(_os.path.dirname(_os.path.abspath(__file__))), "contracts", l.strip().split(None, 1)[1].strip())
+            with open(pth, encoding="utf-8") as f:
+                inc.extend(f.read().split("\n"))
+        else:
+            inc.append(l)
+    lines = inc
     # conditional spec text keyed on the extracted source:  //@IF file=.. sel=.. contains=..  /  //@ELSE  /  //@ENDIF
     pre, skipping, stack_if = [], False, []
     for l in lines:
